@@ -179,6 +179,8 @@ class CSSUnknownRule(cssrule.CSSRule):
                                                             'INVALID': INVALID,
                                                             'STRING': STRING,
                                                             'URI': URI,
+                                                            # a nested at-keyword is part of this rule
+                                                            'ATKEYWORD': default,
                                                             'S': default  # overwrite default default!
                                                             },
                                                default=default,
